@@ -352,6 +352,143 @@ def run_adapter(c):
     return r, hits, tags
 
 
+# ------------------------------------------------------------------ 4b. adapter factory reached through a trait
+
+def run_adapter_trait(c):
+    """An adapter factory raising while a value is assigned to a Supports / AdaptsTo trait,
+    alone or as a member of an Either compound: the exception must reach the caller and
+    nothing may be stored."""
+    from traits.api import HasTraits, Interface, Supports, AdaptsTo, Either, Instance, Int
+    from traits.adaptation.api import (AdaptationManager, get_global_adaptation_manager,
+                                       set_global_adaptation_manager)
+    fault = Fault()
+
+    class IP(Interface):
+        pass
+
+    class Doc(HasTraits):
+        pass
+
+    class Adapted(HasTraits):
+        pass
+    IP.register(Adapted)
+
+    def factory(adaptee):
+        fault.tick()
+        return Adapted()
+    shapes = {"supports": Supports(IP), "adaptsto": AdaptsTo(IP),
+              "either-first": Either(Supports(IP), Instance(HasTraits)),
+              "either-second": Either(Int, Supports(IP)),
+              "either-adaptsto": Either(AdaptsTo(IP), Instance(HasTraits))}
+    Holder = type("Holder", (HasTraits,), {"item": shapes[c["shape"]], "other": Int(3)})
+    old = get_global_adaptation_manager()
+    m = AdaptationManager()
+    set_global_adaptation_manager(m)
+    hits, tags = [], set()
+    try:
+        m.register_factory(factory, Doc, IP)
+        h = Holder()
+        log = []
+        h.on_trait_change(lambda o, n, ol, nw: log.append(n), "item,other")
+        before = h.item
+        doc = Doc()
+        fault.arm(0, c["exc"])
+        try:
+            h.item = doc
+            r = "ok"
+        except BaseException as ex:
+            r = "err " + S.exc_name(ex)
+        fired = fault.fired
+        fault.disarm()
+        sg = "adapter-factory-in-trait:" + c["shape"]
+        if fired:
+            tags.add("fired:factory-trait:" + c["exc"])
+            if not r.startswith("err"):
+                hits.append(_hit("callback-failure-swallowed:" + sg, "adapter factory raising %s was swallowed; item is now %s" % (
+                    c["exc"], type(h.item).__name__)))
+            elif r.split()[1] not in (c["exc"], "TraitError"):
+                hits.append(_hit("callback-exception-changed:" + sg, "injected %s surfaced as %s" % (c["exc"], r)))
+            if r.startswith("err") and (h.item is not before or h.other != 3):
+                hits.append(_hit("failed-op-mutated:" + sg, "a value was stored although the adapter factory raised"))
+            if r.startswith("err") and log:
+                hits.append(_hit("failed-op-notified:" + sg, "handlers notified although the adapter factory raised"))
+            h.item = doc
+            ok = isinstance(h.item if "adaptsto" not in c["shape"] else getattr(h, "item_", None), Adapted) or \
+                (c["shape"] == "either-adaptsto" and h.item is doc)
+            if not ok:
+                hits.append(_hit("twin-differs:" + sg, "assignment after a failed factory gives %s" % type(h.item).__name__))
+    finally:
+        set_global_adaptation_manager(old)
+    return r, hits, tags
+
+
+# ------------------------------------------------------------------ 3b. getter raising inside the dependency notification
+
+def run_property_notify(c):
+    """The getter of a cached property raises once while the library recomputes the value
+    to notify listeners of a dependency change (observe= and legacy depends_on= variants);
+    afterwards the property must behave as on an object that never saw the failure."""
+    from traits.api import HasTraits, Int, Property, cached_property
+    kw = {"observe": "a"} if c["api"] == "observe" else {"depends_on": "a"}
+
+    def scenario(fail_at):
+        calls = [0]
+
+        class M(HasTraits):
+            a = Int(1)
+            double = Property(Int, **kw)
+
+            @cached_property
+            def _get_double(self):
+                calls[0] += 1
+                if calls[0] == fail_at:
+                    raise S.exc_class(c["exc"])("getter failed")
+                return 2 * self.a
+        m = M()
+        events = []
+        m.on_trait_change(lambda obj, name, old, new: events.append((old, new)), "double")
+        obs = []
+        if c.get("warm", 1):
+            try:
+                obs.append(m.double)
+            except Exception as ex:
+                obs.append("err " + S.exc_name(ex))
+        for v in c["values"]:
+            m.a = v
+            try:
+                obs.append(m.double)
+            except Exception as ex:
+                obs.append("err " + S.exc_name(ex))
+        return obs, events, calls[0]
+    _silence()
+    try:
+        good, gev, ngood = scenario(-1)
+        bad, bev, n = scenario(c["fail_at"])
+    finally:
+        _unsilence()
+    hits, tags = [], set()
+    sg = "property-getter-in-notification:" + c["api"]
+    if n >= c["fail_at"]:
+        tags.add("fired:getter-notify:" + c["exc"])
+        # reads after the failing call must give the fault-free values (a read that itself hits the failing
+        # call may raise; every later one must be right)
+        k = 0
+        for g, b in zip(good, bad):
+            if isinstance(b, str):
+                continue
+            if g != b:
+                hits.append(_hit("twin-differs:" + sg, "stale or wrong value after a getter failed inside the notification",
+                                 fault_free=good, faulted=bad))
+                break
+            k += 1
+        # the event of the change whose notification hit the failing call is legitimately lost (the new
+        # value could not be computed); a LATER change must be announced exactly as on the twin
+        if c["fail_at"] <= ngood - 2 and gev[-1:] != bev[-1:]:
+            hits.append(_hit("twin-differs-events:" + sg, "last property change event differs after a getter failed inside the "
+                             "notification", fault_free=gev[-2:], faulted=bev[-2:]))
+    return " ".join(str(x) for x in bad), hits, tags
+
+
 # ------------------------------------------------------------------ 5. change handlers
 
 def run_handler(c):
@@ -423,7 +560,8 @@ def run_handler(c):
 
 
 RUNNERS = {"validator": run_validator, "default": run_default, "property": run_property,
-           "adapter": run_adapter, "handler": run_handler}
+           "adapter": run_adapter, "handler": run_handler, "adapter-trait": run_adapter_trait,
+           "property-notify": run_property_notify}
 
 
 def run(c):
@@ -459,9 +597,17 @@ def generate(rng, n, excs):
             c = {"scalar": "default", "name": rng.choice(["x", "ys", "b"]), "exc": exc}
         elif r < 0.75:
             c = {"scalar": "property", "site": rng.choice(["getter", "setter"]), "warm": rng.choice([0, 1]), "exc": exc}
-        elif r < 0.85:
+        elif r < 0.80:
             t = rng.choice(["B", "C"])
             c = {"scalar": "adapter", "target": t, "k": rng.randint(0, 1 if t == "C" else 0), "exc": exc}
+        elif r < 0.86:
+            c = {"scalar": "adapter-trait", "shape": rng.choice(["supports", "adaptsto", "either-first", "either-second",
+                                                                  "either-adaptsto"]),
+                 "exc": exc if exc != "TraitError" else "ValueError"}
+        elif r < 0.92:
+            c = {"scalar": "property-notify", "api": rng.choice(["observe", "depends_on"]), "warm": rng.choice([0, 1, 1]),
+                 "fail_at": rng.randint(1, 4), "values": [rng.choice([2, 3, 5, 7, 8]) for _ in range(rng.randint(2, 4))],
+                 "exc": exc}
         else:
             c = {"scalar": "handler", "site": rng.choice(["static", "dynamic", "observe"]), "order": rng.randint(0, 3), "exc": exc}
         yield "#" + json.dumps(c, separators=(",", ":"))
